@@ -16,6 +16,12 @@ COMPONENTS = {
     'exact GR reference (refgr)': 'harness, independent NumPy implementation'}
 
 
+def warmup():
+    """Done once in the class child: forks inherit the scan and subclass."""
+    coresim.scan_core()
+    coresim.monitored_class()
+
+
 def generate(rng, tier, profile, nmax=24):
     cfg = coresim.gen_config(rng, profile)
     ops, foci = coresim.gen_ops(rng, cfg, profile, nmax)
